@@ -12,6 +12,8 @@ import BytomModel.Drv.Util
    stateful key-store histories (reference model `Model/HSM.lean`; slots and passwords are numbers):
    reset → ok      hcreate <k> <pw> | hsign <k> <pw> | hcheck <k> <pw> | hresetpw <k> <old> <new>
    | hdelete <k> <pw> | hreload → ok | err
+   rderive <xprv> <path> <reuse|fresh|scribble> → <xpub> (= pubderive (xpub xprv) path; the mode only says how the
+        harness passes the path value: reused and rewritten in place, freshly allocated, scribbled afterwards)
    csign <goroutines> <gomaxprocs> <seed> → ok   (all signatures of the concurrent batch equal the sequential ones) -/
 namespace BytomModel.Drv.C28
 open BytomModel.Drv BytomModel BytomModel.KD
@@ -75,6 +77,10 @@ def stepPure (ws : List String) : String :=
     | ["ks", a, b] => if a == b then "ok" else "err-decrypt"
     -- a concurrent signing batch: signing is a function of (key, message); concurrency changes nothing
     | ["csign", _, _, _] => "ok"
+    -- derivation with a reused path value: a function of the path CONTENTS at the time of the call
+    | ["rderive", x, path, _] => match parseB x, parsePath path with
+      | some x, some p => showO (xpubDerive edGrp prf (xpub edGrp x) p)
+      | _, _ => "bad-op"
     | _ => "bad-op"
 
 def step (st : HSM.State) (line : String) : HSM.State × String :=
